@@ -551,11 +551,34 @@ class _StrAcc:
 _RX = {}
 
 
-def rx(kind, pat, v):
-    """regular expressions as uninterpreted relations rx_match / rx_search (pattern, string)"""
-    key = kind
+class RxPattern:
+    """a compiled regular expression (re.Pattern): pattern text (symbolic) + flags (a concrete re.RegexFlag value)"""
+
+    __pyvc_symbolic__ = True
+
+    def __init__(self, pattern, flags=0):
+        self.pattern, self.flags = pattern, int(flags)
+
+    def pyvc_class(self):
+        import re
+
+        return re.Pattern
+
+    def letters(self):
+        import re
+
+        return "".join(c for f, c in ((re.IGNORECASE, "i"), (re.MULTILINE, "m"), (re.DOTALL, "s"), (re.VERBOSE, "x")) if self.flags & f)
+
+
+def rx(kind, pat, v, flags=""):
+    """regular expressions as uninterpreted relations rx_match / rx_search (pattern, string) - one relation per set of flags
+    (i / m / s / x): nothing is assumed about how a flag changes the language of a pattern, only that the same pattern text under
+    the same flags means the same on both back ends"""
+    if isinstance(pat, RxPattern):
+        pat, flags = pat.pattern, pat.letters()
+    key = kind + ("_" + "".join(sorted(set(flags))) if flags else "")
     if key not in _RX:
-        _RX[key] = z3.Function(f"rx_{kind}", z3.StringSort(), z3.StringSort(), z3.BoolSort())
+        _RX[key] = z3.Function(f"rx_{key}", z3.StringSort(), z3.StringSort(), z3.BoolSort())
     return SBool(_RX[key](_term(pat), _term(v)))
 
 
